@@ -478,7 +478,7 @@ def gen_cases(rng, tier):
             elif pp == 'empty':
                 cut = -100000
             elif pp == 'ext':
-                cut = rng.choice([1, 2, 3, rows * cols * s * max(1, ba // 8)])
+                cut = rng.choice([1, 2, 3, min(255, rows * cols * s * max(1, ba // 8))])   # damage appends bytes 1..cut
             elif pp == 'spp' and colour:
                 q['ndim3'], q['shape2'], q['pi'], q['pl'] = False, 0, 'MONOCHROME2', None
             elif pp == 'ba' and ba in (8, 16):
